@@ -58,7 +58,7 @@ Init == /\ prog = << >> /\ text = << >> /\ phase = "build" /\ bpos = "pass"
 
 UniformPre(P) == \A i \in 1..Len(P) : \A a, b \in 1..Len(P[i].rules) : P[i].rules[a].pre = P[i].rules[b].pre
 \* alternative start: a fixed, hand-structured program (a constant of the model), every text over the glyphs
-InitSeeded(P) == /\ prog \in {x \in P : UniformPre(x)} /\ text = << >> /\ phase = "text" /\ bpos = "pass"
+InitSeeded(P) == /\ prog \in P /\ text = << >> /\ phase = "text" /\ bpos = "pass"
                  /\ stream = << >> /\ slot = << >> /\ nextid = 1 /\ pass = 1 /\ cur = 1 /\ fired = 0 /\ stuck = FALSE
 
 CurPass == prog[Len(prog)]
@@ -76,7 +76,8 @@ NewPass(k) ==
 NewRule(p, ctx) ==
   /\ phase = "build" /\ bpos = "rule" /\ Len(CurPass.rules) < MaxRules
   /\ Len(ctx) > p
-  /\ (CurPass.rules # << >> => p = CurPass.rules[1].pre)                  \* uniform pre-context within a pass
+  \* rules of one pass may have different pre-context lengths: the state table then has one start state per
+  \* number of available pre-context slots (m_startStates) and shorter rules are padded with a class of all glyphs
   /\ prog' = [prog EXCEPT ![Len(prog)].rules = Append(@, [pre |-> p, ctx |-> ctx, items |-> << >>, con |-> NoCon, ret |-> 0])]
   /\ bpos' = "item" /\ UNCHANGED <<text, phase, stream, slot, nextid, pass, cur, fired, stuck>>
 
